@@ -397,9 +397,29 @@ pub fn gen_kws(r: &mut Rng, q: &Joints, force_cons: Option<([f64; 6], [f64; 6], 
          format!("new/first={}/env{}", first, env_len))
     } else {
         let mode = *r.pick(&[CheckMode::AllCollsions, CheckMode::FirstCollisionOnly, CheckMode::NoCheck]);
-        let (sf, safety) = gen_safety(r, env_len, true, true, mode);
-        (KinematicsWithShape::with_safety(p, c, joint_meshes, rand_mesh(r, 0.08), base_t, rand_mesh(r, 0.04), tool_t, env, safety),
-         format!("with_safety/{}/env{}", sf, env_len))
+        let (mut sf, mut safety) = gen_safety(r, env_len, true, true, mode);
+        let mut env = env;
+        let mut base_mesh = rand_mesh(r, 0.08);
+        if r.chance(0.15) {
+            // an empty cell where nothing collides by default, except a few listed pairs: a link against the base (a
+            // floor plate under the robot) at a distance that some configurations violate
+            env.clear();
+            safety = SafetyDistances::standard(if mode == CheckMode::NoCheck { CheckMode::FirstCollisionOnly } else { mode });
+            safety.to_robot_default = NEVER_COLLIDES;
+            safety.to_environment = NEVER_COLLIDES;
+            let mut special: HashMap<(u16, u16), f32> = HashMap::new();
+            for _ in 0..(1 + r.below(2)) {
+                let link = 1 + r.below(5);
+                let key = if r.chance(0.5) { (link as u16, J_BASE as u16) } else { (J_BASE as u16, link as u16) };
+                special.insert(key, *r.pick(&[0.2f32, 0.45, 0.8]));
+            }
+            safety.special_distances = special;
+            base_mesh = plate_mesh(0.6, [0.0, 0.0, 0.0]);
+            sf = "never-by-default+listed-base-pairs".into();
+        }
+        let n_env = env.len();
+        (KinematicsWithShape::with_safety(p, c, joint_meshes, base_mesh, base_t, rand_mesh(r, 0.04), tool_t, env, safety),
+         format!("with_safety/{}/env{}", sf, n_env))
     };
     Kws { kws, ks, fam }
 }
